@@ -5,7 +5,7 @@ import ast
 from typing import Dict, List, Optional, Set, Tuple
 
 from ..astutil import MUTATING_METHODS, attr_chain, call_name, calls_in, store_targets, unparse
-from ..cfg import CFG, LocalDefs
+from ..cfg import CFG, LocalDefs, path_text
 from ..index import AnalysisError, ClassInfo, FuncInfo, Index
 from ..inventory import _scopes, dynamic_feature_census, scope_nodes
 from ..purity import is_logging_call
@@ -16,7 +16,8 @@ EXPLANATION = (
     "store to a class attribute or module-level singleton (ClassName.attr = ..., cls.attr = ..., mutation of a class-level "
     "container through the class, SIM_OUTPUT.x = ...) anywhere in the package is inventoried and must be in the frozen "
     "allow-list (plugin registries written only from __init_subclass__, pcap log handles, output switches written by the "
-    "IO layer); R4.2 every read of an output switch SIM_OUTPUT.* sits in logging infrastructure, builds an output path, "
+    "IO layer), and a process-wide setting stored by a from_config loader is stored on every path through it (each build "
+    "re-establishes it instead of inheriting the previous game's value); R4.2 every read of an output switch SIM_OUTPUT.* sits in logging infrastructure, builds an output path, "
     "or guards statements that only log / open log files - it never guards simulation state or random draws; R4.3 "
     "per-instance defaults: mutable class-level attributes that pydantic does not copy (un-annotated ones, ClassVars, "
     "attributes of plain classes) are either rebound in __init__ or never mutated through an instance, and mutable "
@@ -95,6 +96,17 @@ def r4_1(ctx: Ctx) -> None:
                 ctx.record("R4.1", f"{path}::{owner}::{kind} {what}", f"{path}:{node.lineno}", reason is not None,
                            reason or f"`{unparse(base)}` is shared by every environment in the process: writing it from {owner} lets one "
                                      "environment (or episode) change the behaviour of another")
+                if fn.name == "from_config" and lam is None and kind != "mutcall":
+                    # a process-wide setting taken from the scenario must at least be re-established by *every* build, or
+                    # a scenario that does not mention it inherits the value of whatever was built before it
+                    g = CFG(fn.node)
+                    here = [x for x in g.nodes if x.ast is node]
+                    if here:
+                        p = g.path_avoiding([g.exit], lambda e: False, blocked_nodes={x.id for x in here})
+                        ctx.record("R4.1", f"{path}::{owner}::{what} is re-established by every build", f"{path}:{node.lineno}", p is None,
+                                   "the store is on every path through the loader" if p is None else
+                                   f"a build can complete without storing {what}: it then runs with the value left by the previously built game",
+                                   path_text(p))
     ctx.floor("R4.1", "class-level / singleton stores", n, 10)
     census = {(p, t) for p, _, t in dynamic_feature_census(ix)}
     extra = census - DYNAMIC_CENSUS_EXPECTED
